@@ -37,7 +37,7 @@ func init() {
 		},
 		NumCases: func(tier string) int {
 			if tier == "thorough" {
-				return 1500000
+				return 6000000
 			}
 			return 150000
 		},
